@@ -31,6 +31,17 @@ ALPHABET = (0, 1, 2)
 LOG: list = []
 REAL = [False]          # call through to the real checkpoint function after logging?
 _saved: list = []
+LOG_CAP = [2_000_000]   # more logged events than this within one case = runaway generator
+YIELD_CAP_DEFAULT = 200_000
+WATCHDOG_S = 30.0       # a single case running longer than this is a hang
+
+
+class Runaway(Exception):
+    """hang / over-production guard tripped"""
+
+
+def _on_alarm(signum, frame):
+    raise Runaway("case did not finish within the watchdog time")
 
 
 def install_wrappers():
@@ -42,6 +53,8 @@ def install_wrappers():
 
         async def logged():
             LOG.append(code)
+            if len(LOG) > LOG_CAP[0]:
+                raise Runaway(f"more than {LOG_CAP[0]} events logged")
             if REAL[0]:
                 await orig()
 
@@ -135,6 +148,30 @@ def mk_src(src, variant: int):
     return _agen(l) if variant % 2 == 0 else AIterable(l)
 
 
+class AIterator:
+    """a class-based asynchronous ITERATOR (its own __aiter__): passing it twice aliases it"""
+
+    def __init__(self, l):
+        self.it = iter(list(l))
+
+    def __aiter__(self):
+        return self
+
+    async def __anext__(self):
+        try:
+            return next(self.it)
+        except StopIteration:
+            raise StopAsyncIteration from None
+
+
+def mk_iter_obj(src, variant: int):
+    """ONE iterator object for a store entry (kind 0: synchronous iterator, kind 1: asynchronous iterator)"""
+    kind, l = src
+    if kind == 0:
+        return iter(list(l)) if variant % 2 == 0 else _sgen(l)
+    return _agen(l) if variant % 2 == 0 else AIterator(l)
+
+
 def enc_src(src):
     kind, l = src
     return [kind, len(l), *l]
@@ -164,17 +201,33 @@ def err_code(exc):
         return 1
     if isinstance(exc, TypeError):
         return 2
+    if isinstance(exc, Runaway):
+        return 9
     return 7  # unexpected class
 
 
+YIELD_CAP = [YIELD_CAP_DEFAULT]
+
+
 async def consume_async(make, k=None):
-    """Run make() (returns an async iterator) to the end, or take the first k elements; events go to LOG."""
+    """Run make() (returns an async iterator) to the end, or take the first k elements; events go to LOG.
+    Bounded: more than YIELD_CAP results end the traversal with error code 9 (over-production)."""
     err = None
     try:
         it = make()
         if k is None:
+            n = 0
             async for v in it:
                 LOG.append(("y", v))
+                n += 1
+                if n > YIELD_CAP[0]:
+                    err = 9
+                    m = len(LOG)
+                    aclose = getattr(it, "aclose", None)
+                    if aclose is not None:
+                        await aclose()
+                    del LOG[m:]
+                    break
         else:
             it = it.__aiter__()
             try:
@@ -202,6 +255,9 @@ def consume_sync(make, k=None):
         if k is None:
             for v in it:
                 out.append(v)
+                if len(out) > YIELD_CAP[0]:
+                    err = 9
+                    break
         else:
             for v in std_itertools.islice(it, k):
                 out.append(v)
@@ -267,7 +323,10 @@ FUNS = {
     "compress": 6, "count": 7, "cycle": 8, "dropwhile": 9, "filterfalse": 10, "groupby": 11, "islice": 12,
     "pairwise": 13, "permutations": 14, "product": 15, "repeat": 16, "starmap": 17, "takewhile": 18,
     "zip_longest": 19, "tee": 20, "reduce": 21, "tee_args": 22,
+    # aliasing family: the same iterator object at several argument positions
+    "zip_longest_alias": 23, "chain_alias": 24, "compress_self": 25, "product_alias": 26, "starmap_alias": 27,
 }
+ALIAS = (23, 24, 26, 27)
 FNAME = {v: k for k, v in FUNS.items()}
 
 
@@ -299,7 +358,27 @@ class Case:
             return [(a[1], ())] + list(a[2])
         if fc == 19:
             return list(a[1])
+        if fc == 23:
+            return [a[1][i] for i in a[2]]
+        if fc == 24:
+            return [(a[0], ())] + [a[1][i] for i in a[2]]
+        if fc == 25:
+            return [a[0]]
+        if fc == 26:
+            return [a[1][i] for i in a[2]]
+        if fc == 27:
+            return [(a[1], ())] + [a[2][i] for i in a[3]]
         return []
+
+    def yield_cap(self):
+        """tight bound for the aliasing family: an iterator that produces more than this is a runaway"""
+        fc, a = self.fc, self.a
+        if fc in (23, 24, 27):
+            store, pos = (a[1], a[2]) if fc != 27 else (a[2], a[3])
+            return sum(len(l) for _, l in store) + len(pos) + 3
+        if fc == 25:
+            return len(a[0][1]) + 3
+        return YIELD_CAP_DEFAULT
 
     def describe(self):
         return {"function": FNAME[self.fc], "args": self.a, "variant": self.var, "encoded": self.enc}
@@ -338,6 +417,17 @@ def encode(fc, a):
         return [fc, len(a[1]), *enc_opt(a[0]), *[x for s in a[1] for x in enc_src(s)]]
     if fc == 22:           # (n,)
         return [fc, a[0]]
+    enc_store = lambda st: [len(st), *[x for e in st for x in enc_src(e)]]  # noqa: E731
+    if fc == 23:           # (fill or None, store, positions)
+        return [fc, *enc_opt(a[0]), *enc_store(a[1]), len(a[2]), *a[2]]
+    if fc == 24:           # (outer kind, store, positions)
+        return [fc, a[0], *enc_store(a[1]), len(a[2]), *a[2]]
+    if fc == 25:           # (src,)  data and selectors are this one iterator
+        return [fc, *enc_src(a[0])]
+    if fc == 26:           # (repeat, store, positions)
+        return [fc, a[0], *enc_store(a[1]), len(a[2]), *a[2]]
+    if fc == 27:           # (fn, outer kind, store, positions)
+        return [fc, a[0], a[1], *enc_store(a[2]), len(a[3]), *a[3]]
     raise ValueError(fc)
 
 
@@ -428,6 +518,24 @@ async def run_anyio(c: Case):
             return None
         except Exception as e:  # noqa: BLE001
             return err_code(e)
+    if fc in (23, 24, 26, 27):
+        store_t, pos = (a[1], a[2]) if fc != 27 else (a[2], a[3])
+        objs = [mk_iter_obj(e, v + i) for i, e in enumerate(store_t)]
+        args = [objs[i] for i in pos]
+        if fc == 23:
+            if a[0] is None:
+                return await consume_async(lambda: ait.zip_longest(*args))
+            return await consume_async(lambda: ait.zip_longest(*args, fillvalue=a[0]))
+        if fc == 24:
+            if a[0] == 0 and v % 3 == 0:
+                return await consume_async(lambda: ait.chain(*args))
+            return await consume_async(lambda: ait.chain.from_iterable(outer_of(a[0], args, v)))
+        if fc == 26:
+            return await consume_async(lambda: ait.product(*args, repeat=a[0]))
+        return await consume_async(lambda: ait.starmap(amk(FNN[a[0]]), outer_of(a[1], args, v)))
+    if fc == 25:
+        obj = mk_iter_obj(a[0], v)
+        return await consume_async(lambda: ait.compress(obj, obj))
     if fc == 22:
         try:
             t = ait.tee(S((0, ())), a[0])
@@ -497,6 +605,22 @@ def run_std(c: Case):
             return [std_functools.reduce(FN2[f], L(s), init)], None
         except Exception as e:  # noqa: BLE001
             return [], err_code(e)
+    if fc in (23, 24, 26, 27):
+        store_t, pos = (a[1], a[2]) if fc != 27 else (a[2], a[3])
+        objs = [iter(list(e[1])) for e in store_t]
+        args = [objs[i] for i in pos]
+        if fc == 23:
+            if a[0] is None:
+                return consume_sync(lambda: it.zip_longest(*args))
+            return consume_sync(lambda: it.zip_longest(*args, fillvalue=a[0]))
+        if fc == 24:
+            return consume_sync(lambda: it.chain.from_iterable(args))
+        if fc == 26:
+            return consume_sync(lambda: it.product(*args, repeat=a[0]))
+        return consume_sync(lambda: it.starmap(FNN[a[0]], args))
+    if fc == 25:
+        obj = iter(list(a[0][1]))
+        return consume_sync(lambda: it.compress(obj, obj))
     if fc == 22:
         try:
             return [("n", len(it.tee([], a[0])))], None
@@ -506,9 +630,34 @@ def run_std(c: Case):
 
 
 async def execute(cases: list[Case]):
+    import signal
+
+    have_alarm = hasattr(signal, "setitimer")
+    old = signal.signal(signal.SIGALRM, _on_alarm) if have_alarm else None
+    try:
+        await _execute(cases, signal if have_alarm else None)
+    finally:
+        if have_alarm:
+            signal.setitimer(signal.ITIMER_REAL, 0)
+            signal.signal(signal.SIGALRM, old)
+        YIELD_CAP[0] = YIELD_CAP_DEFAULT
+        LOG_CAP[0] = 2_000_000
+
+
+async def _execute(cases: list[Case], signal):
     for c in cases:
         LOG.clear()
-        err = await run_anyio(c)
+        cap = c.yield_cap()
+        YIELD_CAP[0] = cap
+        LOG_CAP[0] = 2_000_000 if cap == YIELD_CAP_DEFAULT else 40 * cap + 200
+        if signal is not None:
+            signal.setitimer(signal.ITIMER_REAL, WATCHDOG_S)
+        try:
+            err = await run_anyio(c)
+        except Runaway:
+            err = 9
+        if signal is not None:
+            signal.setitimer(signal.ITIMER_REAL, 0)
         log = list(LOG)
         c.impl_vals = [e[1] for e in log if isinstance(e, tuple) and e[0] == "y"]
         c.impl_err = err
@@ -561,13 +710,15 @@ def src_tuples(nmax, maxlen, kinds=(0, 1)):
 BOUNDS = {
     # per tier: see exhaustive_cases; recorded verbatim in the evidence
     "quick": dict(L=5, Lpred=5, params=(-2, -1, 0, 1, 2, 3, 4, 5, 6, 7), Lcomb=4, Lcompress=3,
-                  islice_params=(None, -2, -1, 0, 1, 2, 3, 4, 5, 6, 7), Lislice=2, Lislice_distinct=6, chain_n=2, chain_L=2,
+                  islice_params=(None, -2, -1, 0, 1, 2, 3, 5), Lislice=2, Lislice_distinct=6, chain_n=2, chain_L=2,
                   zip_n=2, zip_L=2, prod_n=2, prod_L=2, prod_rep=(-1, 0, 1, 2, 3), star_n=2, star_L=2,
-                  cycle_L=3, cycle_k=7, count_k=4, Lacc=4),
+                  cycle_L=3, cycle_k=7, count_k=4, Lacc=4,
+                  alias_L1=4, alias_L2=2, alias_L3=1, alias_self_L=5),
     "thorough": dict(L=6, Lpred=7, params=(-2, -1, 0, 1, 2, 3, 4, 5, 6, 7), Lcomb=5, Lcompress=4,
                      islice_params=(None, -2, -1, 0, 1, 2, 3, 4, 5, 6, 7), Lislice=4, Lislice_distinct=7,
                      chain_n=3, chain_L=2, zip_n=3, zip_L=2, prod_n=2, prod_L=2, prod_rep=(-2, -1, 0, 1, 2, 3),
-                     star_n=3, star_L=2, cycle_L=4, cycle_k=10, count_k=5, Lacc=6),
+                     star_n=3, star_L=2, cycle_L=4, cycle_k=10, count_k=5, Lacc=6,
+                     alias_L1=6, alias_L2=3, alias_L3=2, alias_self_L=7),
 }
 
 
@@ -654,6 +805,132 @@ def exhaustive_cases(tier: str) -> list[Case]:
     return out
 
 
+# position -> underlying-iterator maps (restricted growth strings): every way to place 1..3 underlying iterator
+# objects at 1..3 argument positions; [0,1,2] etc. are the distinct-source cases seen through the store
+ALIAS_PATTERNS = {1: [(0,), (0, 0), (0, 0, 0)],
+                  2: [(0, 1), (0, 0, 1), (0, 1, 0), (0, 1, 1)],
+                  3: [(0, 1, 2)]}
+
+
+def alias_cases(tier: str) -> list[Case]:
+    b = BOUNDS[tier]
+    out: list[Case] = []
+    var = [0]
+
+    def add(fc, a):
+        var[0] += 1
+        out.append(Case(fc, a, var[0], origin="exhaustive-alias"))
+
+    for m, pats in ALIAS_PATTERNS.items():
+        base = srcs_upto(b[f"alias_L{m}"])
+        for store in std_itertools.product(base, repeat=m):
+            for pos in pats:
+                for fill in (None, 7):
+                    add(23, (fill, store, pos))
+                for ko in (0, 1):
+                    add(24, (ko, store, pos))
+                for rep in (0, 1, 2):
+                    if rep * len(pos) <= 4:
+                        add(26, (rep, store, pos))
+                for f in ((4,) if tier == "quick" else (0, 4)):
+                    for ko in (0, 1):
+                        add(27, (f, ko, store, pos))
+    for s_ in srcs_upto(b["alias_self_L"]):
+        add(25, (s_,))
+    return out
+
+
+def random_alias_cases(rng: random.Random, n: int) -> list[Case]:
+    out = []
+    for _ in range(n):
+        m = rng.randint(1, 3)
+        store = tuple((rng.randint(0, 1), tuple(rng.randint(-5, 9) for _ in range(rng.randint(0, 12)))) for _ in range(m))
+        pos = tuple(rng.randrange(m) for _ in range(rng.randint(1, 5)))
+        fc = rng.choice([23, 23, 24, 25, 26, 27])
+        if fc == 23:
+            a = (rng.choice([None, -1, 7]), store, pos)
+        elif fc == 24:
+            a = (rng.randint(0, 1), store, pos)
+        elif fc == 25:
+            a = ((rng.randint(0, 1), tuple(rng.choice((0, 0, 1, 2, -1)) for _ in range(rng.randint(0, 20)))),)
+        elif fc == 26:
+            store = tuple((k, l[:3]) for k, l in store)
+            a = (rng.randint(-1, 1), store, pos[:3])
+        else:
+            a = (rng.randrange(len(FNN)), rng.randint(0, 1), store, pos)
+        out.append(Case(fc, a, rng.randrange(1000), origin="random-alias"))
+    return out
+
+
+# ---- tee iterators passed onward (stdlib differential only: no trace model of the composition) ----
+def tee_onward_cases(tier: str):
+    L = 3 if tier == "quick" else 4
+    out = []
+    for kind in (0, 1):
+        for l in lists(L):
+            for n, pats in ((1, [(0,), (0, 0)]), (2, [(0, 1), (1, 0), (0, 0, 1), (0, 1, 0), (0, 1, 1)]),
+                            (3, [(0, 1, 2), (2, 0, 1)])):
+                for pos in pats:
+                    for F in ("zip_longest", "chain", "product", "starmap", "compress"):
+                        if F == "compress" and len(pos) != 2:
+                            continue
+                        if F == "product" and len(l) ** len(pos) > 100:
+                            continue
+                        out.append({"F": F, "kind": kind, "src": l, "n": n, "pos": pos})
+    return out
+
+
+async def _run_tee_onward(cases):
+    import anyio.itertools as ait
+
+    hits = []
+    for c in cases:
+        F, pos, l = c["F"], c["pos"], list(c["src"])
+        cap = 3 * (len(l) + 2) * (len(pos) + 1) + (len(l) ** len(pos) if F == "product" else 0)
+        YIELD_CAP[0] = cap
+        LOG_CAP[0] = 60 * cap + 500
+        LOG.clear()
+        ts = ait.tee(mk_iter_obj((c["kind"], l), len(hits)), c["n"])
+        args = [ts[i] for i in pos]
+        tsd = std_itertools.tee(iter(l), c["n"])
+        sargs = [tsd[i] for i in pos]
+        if F == "zip_longest":
+            err = await consume_async(lambda: ait.zip_longest(*args, fillvalue=7))
+            std = consume_sync(lambda: std_itertools.zip_longest(*sargs, fillvalue=7))
+        elif F == "chain":
+            err = await consume_async(lambda: ait.chain(*args))
+            std = consume_sync(lambda: std_itertools.chain(*sargs))
+        elif F == "product":
+            err = await consume_async(lambda: ait.product(*args))
+            std = consume_sync(lambda: std_itertools.product(*sargs))
+        elif F == "starmap":
+            err = await consume_async(lambda: ait.starmap(amk(_horner), args))
+            std = consume_sync(lambda: std_itertools.starmap(_horner, sargs))
+        else:
+            err = await consume_async(lambda: ait.compress(args[0], args[1]))
+            std = consume_sync(lambda: std_itertools.compress(sargs[0], sargs[1]))
+        vals = [e[1] for e in LOG if isinstance(e, tuple) and e[0] == "y"]
+        nck = sum(1 for e in LOG if e in (1, 2, 3))
+        if err != std[1] or canon(vals) != canon(std[0]):
+            hits.append((c, f"{F} over tee iterators at positions {list(pos)}: AnyIO {vals!r} (error {err}) but the "
+                            f"standard library {std[0]!r} (error {std[1]}); 9 = still producing at the bound"))
+        elif err is None and not vals and nck == 0:
+            hits.append((c, f"{F} over tee iterators: traversal yielding nothing passed no checkpoint"))
+    return hits
+
+
+def run_tee_onward(tier: str):
+    cases = tee_onward_cases(tier)
+    install_wrappers()
+    try:
+        hits = asyncio.run(_run_tee_onward(cases))
+    finally:
+        remove_wrappers()
+        YIELD_CAP[0] = YIELD_CAP_DEFAULT
+        LOG_CAP[0] = 2_000_000
+    return cases, hits
+
+
 def random_cases(rng: random.Random, n: int) -> list[Case]:
     out = []
 
@@ -726,7 +1003,11 @@ def monitor(c: Case) -> list[str]:
         return hits
     vals, serr = c.std
     if c.impl_err != serr:
-        hits.append(f"{FNAME[c.fc]}: error class differs: AnyIO {c.impl_err} vs stdlib {serr} (1=ValueError 2=TypeError 7=other)")
+        if c.impl_err == 9:
+            hits.append(f"{FNAME[c.fc]}: runaway iterator: still producing after {len(c.impl_vals)} results (or hung); "
+                        f"the standard library yields {len(vals)} results and ends with error {serr}")
+        else:
+            hits.append(f"{FNAME[c.fc]}: error class differs: AnyIO {c.impl_err} vs stdlib {serr} (1=ValueError 2=TypeError 7=other)")
     if canon(c.impl_vals) != canon(vals):
         hits.append(f"{FNAME[c.fc]}: AnyIO yields {c.impl_vals!r} but the standard library yields {vals!r}")
     if c.impl_err is None:
@@ -1019,6 +1300,15 @@ def interesting(c: Case) -> set:
         f.add("zip_uneven")
     if c.fc == 8 and c.a[0] > len(c.a[1][1]) > 0:
         f.add("cycle_wraps")
+    if c.fc in ALIAS:
+        store_t, pos = (c.a[1], c.a[2]) if c.fc != 27 else (c.a[2], c.a[3])
+        for i in set(pos):
+            if pos.count(i) > 1:
+                f.add("shared_async_iterator" if store_t[i][0] == 1 else "shared_sync_iterator")
+                if c.fc == 23 and store_t[i][0] == 1:
+                    f.add("zip_longest_grouper_async")
+    if c.fc == 25:
+        f.add("shared_async_iterator" if c.a[0][0] == 1 else "shared_sync_iterator")
     return f
 
 
@@ -1036,6 +1326,10 @@ def check(tier: str) -> int:
         "to checkpoint, so reduce delegates its checkpoint to it (documented scope, C08)",
         "itertools.batched(strict=) exists from Python 3.13: on older interpreters tie X2 applies the documented "
         "behaviour on top of the real non-strict batched" + ("" if not BATCHED_STRICT_NATIVE else " (native here)"),
+        "aliasing (one iterator object at several argument positions): zip_longest / chain / product / starmap / compress "
+        "are modelled over a store of underlying iterators + a position->index map and proved against the shared-iterator "
+        "semantics (ItertoolsAlias.v), which tie X2 checks against the real itertools fed the same aliasing; tee iterators "
+        "passed onward into these functions are covered by the stdlib differential only (no composed trace model)",
         "tee LTS: consumers run in separate tasks, no cancellation of consumers; lock modelled as owner + FIFO queue "
         "(its own guarantees are C09)",
     ]
@@ -1066,8 +1360,8 @@ def check(tier: str) -> int:
 
     rng = random.Random(core.seed())
     corpus, corpus_tees = corpus_cases()
-    ex = exhaustive_cases(tier)
-    rnd = random_cases(rng, 3000 if tier == "quick" else 80000)
+    ex = exhaustive_cases(tier) + alias_cases(tier)
+    rnd = random_cases(rng, 3000 if tier == "quick" else 80000) + random_alias_cases(rng, 1500 if tier == "quick" else 20000)
     rnd_real = random_cases(rng, 1500 if tier == "quick" else 10000)
     for c in rnd_real:
         c.origin = "random-real-checkpoints"
@@ -1097,6 +1391,7 @@ def check(tier: str) -> int:
         for h in monitor(c):
             hits.append((c, h))
 
+    onward_cases, onward_hits = run_tee_onward(tier)
     mark("model_spec_drivers_and_monitors")
     # ---- tee ----
     tee_runs, tee_nex, tee_plan = run_tee(tier, rng)
@@ -1120,7 +1415,7 @@ def check(tier: str) -> int:
     tee_hits = [(r, msg) for r in tee_runs for msg in r.mon]
 
     # ---- kernel-checked sample ----
-    sample_n = 150 if tier == "quick" else 1500
+    sample_n = 60 if tier == "quick" else 1500
     idx = list(range(len(cases)))
     rng.shuffle(idx)
     idx = idx[:sample_n]
@@ -1148,6 +1443,10 @@ def check(tier: str) -> int:
         rep.violation(h, {"kind": "monitor", "case": c.describe(), "anyio": {"values": c.impl_vals, "error": c.impl_err,
                                                                              "trace": c.impl},
                           "stdlib": c.std, "origin": c.origin})
+    if onward_hits:
+        c0, msg = min(onward_hits, key=lambda p: (len(p[0]["src"]), len(p[0]["pos"])))
+        rep.violation(msg, {"kind": "monitor", "case": {"function": "tee_onward", **{k: (list(v) if isinstance(v, tuple) else v)
+                                                                                  for k, v in c0.items()}}})
     if tee_hits:
         r, msg = min(tee_hits, key=lambda p: len(p[0].ops))
         rep.violation(msg, {"kind": "monitor", "case": r.describe(), "observations": r.outs})
@@ -1166,7 +1465,7 @@ def check(tier: str) -> int:
         tie_broken.append(f"tee model rejected {tee_rejected} segments the implementation performed")
     if not vm_ok and not (x1_bad or x2_bad or tee_bad):
         tie_broken.append("vm_compute sample disagrees with the extracted model")
-    if tie_broken and not hits and not tee_hits:
+    if tie_broken and not hits and not tee_hits and not onward_hits:
         d = None
         if x1_bad:
             c, o = min(x1_bad, key=lambda p: len(p[0].enc))
@@ -1223,13 +1522,17 @@ def check(tier: str) -> int:
         "vm_compute_sample": len(s_in),
         "vm_compute_ok": vm_ok,
         "model_rejected_ops": tee_rejected,
-        "monitor_hits": len(hits) + len(tee_hits),
+        "monitor_hits": len(hits) + len(tee_hits) + len(onward_hits),
+        "tee_onward_cases": len(onward_cases),
+        "guards": {"yield_cap_default": YIELD_CAP_DEFAULT, "alias_family_yield_cap": "elements + positions + 3",
+                   "event_log_cap": "2e6 (alias family: 40 * yield cap + 200)", "watchdog_seconds_per_case": WATCHDOG_S},
         "phase_seconds": phases,
         "samples": [cases[i].describe() | {"impl_trace": cases[i].impl[:40]} for i in idx[:2]]
                    + [tee_runs[i].describe() for i in tidx[:1]],
     })
     for need in ("error_path", "empty_traversal", "async_source", "sync_source", "islice_step_gt1",
-                 "batched_short_tail", "groupby_key_change", "zip_uneven", "cycle_wraps"):
+                 "batched_short_tail", "groupby_key_change", "zip_uneven", "cycle_wraps", "shared_async_iterator",
+                 "shared_sync_iterator", "zip_longest_grouper_async"):
         if not flags.get(need):
             rep.notes.append(f"generator self-check: predicate {need} never reached")
     for need in ("lock_contended", "handoff"):
@@ -1265,6 +1568,17 @@ def replay(path: str) -> int:
             REAL[0] = False
         print(json.dumps(r.describe()), "\nobservations:", r.outs, "\nmonitor:", r.mon or "silent")
         return 1 if r.mon else 0
+    if case.get("function") == "tee_onward":
+        c0 = {"F": case["F"], "kind": case["kind"], "src": tuple(case["src"]), "n": case["n"], "pos": tuple(case["pos"])}
+        install_wrappers()
+        try:
+            hits = asyncio.run(_run_tee_onward([c0]))
+        finally:
+            remove_wrappers()
+            YIELD_CAP[0] = YIELD_CAP_DEFAULT
+            LOG_CAP[0] = 2_000_000
+        print(json.dumps(case), "\nmonitor:", [h for _, h in hits] or "silent")
+        return 1 if hits else 0
     c = Case(FUNS[case["function"]], _tuplify(case["args"]), case.get("variant", 0), origin="replay")
     run_cases([c])
     hits = monitor(c)
